@@ -229,7 +229,7 @@ class DifferConfig:
 
         for rule_coord, rule_config in section.items():
             if rule_coord.node == node_coord.node \
-                    and rule_coord.parent == node_coord.parent \
+                    and rule_coord.parent is node_coord.parent \
                     and rule_coord.parentref == node_coord.parentref:
                 return str(rule_config)
 
